@@ -122,8 +122,8 @@ let rec order_idx pat n seed : int list option =
 
 let rec take m l = if m <= 0 then [] else match l with [] -> [] | x :: r -> x :: take (m - 1) r
 
-(* which ranks (of len keys) to remove, in order; depths only for s/p *)
-let removal_idx ord len keep seed (depths : unit -> int array) : int list =
+(* which ranks (of len keys) to remove, in order; metric (depths for s/p, depth + height for P) only for s/p/P *)
+let removal_idx ord len keep seed (metric : char -> int array) : int list =
   let m = len - keep in
   if m <= 0 || keep < 0 then [] else
   let first pat = match order_idx pat len seed with Some l -> take m l | None -> [] in
@@ -136,10 +136,10 @@ let removal_idx ord len keep seed (depths : unit -> int array) : int list =
     for j = 0 to keep - 1 do kept.(j * len / keep) <- true done;
     let out = List.filter (fun i -> not kept.(i)) (List.init len (fun i -> i)) in
     if ord = 'E' then List.rev out else out
-  | 's' | 'p' ->
-    let d = depths () in
+  | 's' | 'p' | 'P' ->
+    let d = metric ord in
     let idx = List.init len (fun i -> i) in
-    let c = if ord = 's' then (fun a b -> compare d.(a) d.(b)) else (fun a b -> compare d.(b) d.(a)) in
+    let c = if ord = 'p' then (fun a b -> compare d.(b) d.(a)) else (fun a b -> compare d.(a) d.(b)) in
     take m (List.stable_sort c idx)
   | _ -> []
 
@@ -270,6 +270,22 @@ let depths_inorder (t : int M.tree) : int array =
     | M.Node (l, _, r) -> go (d + 1) l; out := d :: !out; go (d + 1) r in
   go 0 t; Array.of_list (List.rev !out)
 
+(* depth + height of the subtree, per node in in-order *)
+let through_inorder (t : int M.tree) : int array =
+  let out = ref [] in
+  let rec go d = function
+    | M.Leaf -> -1
+    | M.Node (l, _, r) ->
+      let hl = go (d + 1) l in
+      let cell = ref 0 in
+      out := cell :: !out;
+      let hr = go (d + 1) r in
+      let h = 1 + max hl hr in
+      cell := d + h; h in
+  ignore (go 0 t); Array.of_list (List.rev_map (fun c -> !c) !out)
+
+let shape_metric t ord = if ord = 'P' then through_inorder t else depths_inorder t
+
 let key_or t c = if M.valid c then ok (M.key 0 t c) else -1
 
 (* probe() of scale.go on the model *)
@@ -342,7 +358,7 @@ let probe (zcmp : int -> int -> M.z) (tr : int M.tree0) s : string =
 
 let max_big_keys = 20000
 let int_opt s = try Some (int_of_string s) with _ -> None
-let ord_letters = "lhoibBreEsp"
+let ord_letters = "lhoibBreEspP"
 
 (* a macro op parsed: the harness answers "?" for anything else *)
 type macro = MA of char * int * int * int * int | MR of char * int * int | MQ of int | MBad | MPrim
@@ -397,7 +413,7 @@ let eval_big cs beta ops =
           push ("a" ^ string_of_int !cnt)
         | MR (ord, keep, seed) ->
           let keys = Array.of_list (M.inorder (M.big_root !tr)) in
-          let idx = removal_idx ord (Array.length keys) keep seed (fun () -> depths_inorder (M.big_root !tr)) in
+          let idx = removal_idx ord (Array.length keys) keep seed (shape_metric (M.big_root !tr)) in
           mach_reset m;
           let cnt = ref 0 in
           List.iter (fun j ->
@@ -710,10 +726,10 @@ let spec_big cs ops out =
            card := len - mrem;
            (match !known with
             | Some s when mrem > 0 ->
-              if ord = 's' || ord = 'p' then known := None
+              if ord = 's' || ord = 'p' || ord = 'P' then known := None
               else begin
                 let keys = Array.of_list (S.elements s) in
-                let idx = removal_idx ord len keep seed (fun () -> [||]) in
+                let idx = removal_idx ord len keep seed (fun _ -> [||]) in
                 known := Some (List.fold_left (fun s j -> S.remove keys.(j) s) s idx)
               end
             | _ -> ());
